@@ -46,6 +46,12 @@ type c11Change struct {
 
 type c11Case struct {
 	AddPath bool         `json:"add_path"`
+	// direction of the ADD-PATH negotiation as seen by the sender (only with AddPath): 0 both, 1 send only
+	// (identifiers on the wire), 2 receive only (no identifiers on the wire: the session behaves like one
+	// without ADD-PATH for what is sent)
+	AddPathDir int `json:"add_path_dir"`
+	// the identifier the route was received with differs from the one it is advertised with
+	RemoteIDs bool `json:"remote_ids"`
 	ExtMsg  bool         `json:"ext_msg"`
 	Sets    []c11AttrSet `json:"sets"`
 	Changes []c11Change  `json:"changes"`
@@ -56,6 +62,10 @@ type c11Case struct {
 
 func drawC11(t *rapid.T) c11Case {
 	c := c11Case{AddPath: rapid.Bool().Draw(t, "add_path"), ExtMsg: rapid.IntRange(0, 3).Draw(t, "ext") == 0}
+	if c.AddPath {
+		c.AddPathDir = rapid.SampledFrom([]int{0, 0, 1, 2}).Draw(t, "add_path_dir")
+	}
+	c.RemoteIDs = rapid.Bool().Draw(t, "remote_ids")
 	ns := rapid.IntRange(1, 5).Draw(t, "nsets")
 	for i := 0; i < ns; i++ {
 		l := fmt.Sprintf("s%d", i)
@@ -280,10 +290,23 @@ func runC11(c c11Case, st *verifkit.Stats) *verifkit.Failure {
 		limit = 65535
 	}
 	opt := &bgp.MarshallingOption{ExtendedMessage: c.ExtMsg}
+	ropt := &bgp.MarshallingOption{ExtendedMessage: c.ExtMsg} // the receiver's side of the same session
 	if c.AddPath {
 		opt.AddPath = map[bgp.Family]bgp.BGPAddPathMode{}
+		ropt.AddPath = map[bgp.Family]bgp.BGPAddPathMode{}
 		for _, f := range c11Families {
-			opt.AddPath[f] = bgp.BGP_ADD_PATH_BOTH
+			switch c.AddPathDir {
+			case 1:
+				opt.AddPath[f], ropt.AddPath[f] = bgp.BGP_ADD_PATH_SEND, bgp.BGP_ADD_PATH_RECEIVE
+			case 2:
+				opt.AddPath[f], ropt.AddPath[f] = bgp.BGP_ADD_PATH_RECEIVE, bgp.BGP_ADD_PATH_SEND
+			default:
+				opt.AddPath[f], ropt.AddPath[f] = bgp.BGP_ADD_PATH_BOTH, bgp.BGP_ADD_PATH_BOTH
+			}
+		}
+		if c.AddPathDir == 2 {
+			// nothing of ADD-PATH applies to what this speaker sends
+			c.AddPath = false
 		}
 	}
 	src := &PeerInfo{AS: 65001, LocalAS: 65000, ID: netip.MustParseAddr("10.0.0.1"), Address: netip.MustParseAddr("10.0.0.1")}
@@ -339,7 +362,11 @@ func runC11(c c11Case, st *verifkit.Stats) *verifkit.Failure {
 		if !c.AddPath {
 			id = 1
 		}
-		p := NewPath(f, src, bgp.PathNLRI{NLRI: nlri, ID: uint32(id)}, withdraw, pathAttrs, time.Unix(1, 0), false)
+		rid := uint32(id)
+		if c.RemoteIDs {
+			rid = uint32(0x7000 + 3*id)
+		}
+		p := NewPath(f, src, bgp.PathNLRI{NLRI: nlri, ID: rid}, withdraw, pathAttrs, time.Unix(1, 0), false)
 		p.localID = uint32(id)
 		if s.SameKey {
 			p.SetHash(0x5eed)
@@ -435,7 +462,7 @@ func runC11(c c11Case, st *verifkit.Stats) *verifkit.Failure {
 		if len(wire) > limit {
 			return verifkit.Failf("oversize-message", "message %d is %d octets, session maximum %d", mi, len(wire), limit)
 		}
-		pm, err := bgp.ParseBGPMessage(wire, opt)
+		pm, err := bgp.ParseBGPMessage(wire, ropt)
 		if err != nil {
 			return verifkit.Failf("unparsable-message", "message %d does not parse back under the session options: %v\n%x", mi, err, wire)
 		}
@@ -537,6 +564,9 @@ func runC11(c c11Case, st *verifkit.Stats) *verifkit.Failure {
 	}
 	if c.ExtMsg {
 		st.Label("ext-msg")
+	}
+	if opt.AddPath != nil {
+		st.Label(fmt.Sprintf("add-path-dir-%d", c.AddPathDir))
 	}
 	return nil
 }
